@@ -20,7 +20,7 @@ def run(ctx):
     else:
         cfgs = [("MC_C10_thorough.cfg", "exhaustive: 3 worker arbiters, 5 calls"),
                 ("MC_C10_quick.cfg", "exhaustive small"), ("MC_C10_calls.cfg", "three-phase calls")]
-    rt.model_checks(ctx, cfgs, NEGS_C10)
+    rt.model_checks(ctx, cfgs, NEGS_C10, need_actions=["ArbYield"])
     ctx.cov["exhaustive"] = True
     ctx.cov["constants"] = {"model": "see tlc_runs", "driver": "1..3 arbiters (+ system arbiter), owner + 1..3 sender "
                             "threads with cloned handles, 2..6 commands each, bodies done/yield/pend/panic/busy"}
